@@ -1,9 +1,49 @@
 import Tup.DrvUtil
-/-! Driver for group Sh (stub; the group's owner fills it in). -/
+import Tup.Model.ShellExport
+import Tup.Spec.Sh
+/-! Driver for group Sh: shell exporter (C18) and terminal responses (C19). -/
 namespace Tup.Drv.Sh
 open Tup
 
-def handle : List String → String
-  | _ => "bad"
+def optHex : Option Bytes → String
+  | none => "none"
+  | some b => "some " ++ hexOut b
+
+def hexList (l : List Bytes) : String :=
+  if l.isEmpty then "." else ",".intercalate (l.map hexOut)
+
+def handleSh : List String → Option String
+  -- model of the exporter
+  | ["export", d, c] => do
+      let d ← ofHex d; let c ← ofHex c
+      pure (hexOut (ShellExport.writeToShellscript d c))
+  | ["command", d] => do
+      let d ← ofHex d
+      pure (hexOut (ShellExport.command d))
+  | ["escape", d] => do
+      let d ← ofHex d
+      pure (hexOut (ShellExport.escapeBytes d))
+  | ["chunks", d] => do
+      let d ← ofHex d
+      pure (hexList (ShellExport.splitChunks d))
+  | ["trybase64", d] => do
+      let d ← ofHex d
+      pure (optHex (ShellExport.tryBase64 d))
+  | ["pyb64", d] => do
+      let d ← ofHex d
+      pure (optHex (ShellExport.pyB64decStrict d))
+  | ["b64enc", d] => do
+      let d ← ofHex d
+      pure (hexOut (b64enc d))
+  -- specification: what sh prints
+  | ["eval", s] => do
+      let s ← ofHex s
+      pure (optHex (Spec.Sh.eval s))
+  | _ => none
+
+def handle (args : List String) : String :=
+  match handleSh args with
+  | some r => r
+  | none => "bad"
 
 end Tup.Drv.Sh
